@@ -44,11 +44,12 @@ def check(tier, seed):
     if reader:
         st.merge(reader(tier, seed))
     st.c['nontrivial'] = st.c['nodes_with_several_results'] + st.c.get('reader_nodes_derivable', 0)
+    st.c['executions'] += st.c.get('reader_trees', 0)
     return sprops.finish(PROP, tier, seed, st, t0, shards,
                          rule=('parser part: deviation-bounded score matrices x grammars (G4 has pairs with three results, two of one category with different labels, and unary '
                                'tables with two targets) x both head directions x n<=3(4) x n-best; every node of every returned tree must carry (label, symbol, head direction) of a '
                                'grammar result that has the node\'s category for its children, and on the native path the stored rule index must name such a result. '
-                               'reader part: every licensed derivation printed in auto/xml/jigg_xml/ptb/ja and read back. non-trivial = nodes whose children admit several results'),
+                               'reader part: every licensed derivation printed in auto/xml/jigg_xml/ptb/ja and read back; and every history of <=3 (language, format) reading steps over trees with featureless categories in one process, each from fresh module state. non-trivial = nodes whose children admit several results'),
                          assumptions=['transliterated parsing.pyx (full path)'],
                          extra=dict(reader_part=bool(reader), label_checked_trees=st.c['label_checked_trees']))
 
